@@ -7,13 +7,13 @@ import render
 import vlib
 
 
-def generate(chk, module, parts, depth, extra=None):
+def generate(chk, module, parts, depth, extra=None, cfg="MC_Probe.cfg"):
     cases = []
     for part in parts:
         consts = {"Depth": depth, "Part": '"%s"' % part}
         if extra:
             consts.update(extra)
-        r = vlib.tlc(module, "MC_Probe.cfg", constants=consts, xss="1g")
+        r = vlib.tlc(module, cfg, constants=consts, xss="1g")
         chk.add_tlc(r)
         cases += r.records
     for i, c in enumerate(cases):
@@ -34,13 +34,15 @@ def transpile(vh, cases, annotate=(False, True)):
     return {o["id"]: o["runs"] for o in out}
 
 
-def judge_verdicts(chk, cases, runs, known=None):
+def judge_verdicts(chk, cases, runs, known=None, with_prog=False):
     """returns list of (case, verdict string); classification of violations is done by the caller through `known`"""
     obs = []
     for c in cases:
         rs = runs[c["id"]]
         obs.append({"id": c["id"], "prop": c["prop"], "kind": c["kind"], "note": c["note"], "expect": c["expect"],
                     "off": verdict_of(rs[0]), "on": verdict_of(rs[-1])})
+        if with_prog:
+            obs[-1]["prog"] = c["prog"]
     verdicts, states, trans = vlib.judge("VerdictJudge", "VerdictJudge.cfg", obs, chunk=40000, xss="1g")
     chk.states += states
     chk.transitions += trans
